@@ -62,7 +62,14 @@ def shard(ctx):
         if r is not None:
             ctx.fail(dict(prog=prog, modes=[mode]), r[0], r[1])
 
-    ctx.hyp(strat, one, ctx.per_shard(4000, 200000), "programs")
+    ctx.hyp(strat, one, ctx.per_shard(3200, 200000), "programs")
+
+    # collections / calls / operators ALL of whose operands are statement-lifted constructs (every result temporary is live at
+    # once), also placed in the else position of an if and in a later clause of a cond, where Hy chains ifs (shared with C12)
+    from vf.props import c12
+
+    ctx.hyp(st.tuples(c12.all_lifted_program(30 if ctx.quick else 50, 2 if ctx.quick else 3), st.sampled_from(["module", "function"])), one,
+            ctx.per_shard(1000, 50000), "all-operands-lifted")
 
 
 def _kinds(x):
